@@ -300,7 +300,7 @@ func ruleAccessors(c *Ctx, r *Repo, r1, r2, r3 string) {
 				continue
 			}
 			if multi {
-				ok = ok && strings.HasPrefix(p.Ret[0], `fmt.Sprintf("(%s)", `+joined)
+				ok = ok && strings.HasPrefix(p.Ret[0], `"(" + `+joined) && strings.HasSuffix(p.Ret[0], ` + ")"`)
 			} else {
 				ok = ok && strings.HasPrefix(p.Ret[0], joined)
 			}
@@ -375,8 +375,8 @@ func ruleAccessors(c *Ctx, r *Repo, r1, r2, r3 string) {
 		{"Method.ArgCallListSlice", "RECV.argCallListSlice<(template.Method).argCallListSlice>(ARG0, ARG1, true)"},
 		{"Method.ArgCallListSliceNoEllipsis", "RECV.argCallListSlice<(template.Method).argCallListSlice>(ARG0, ARG1, false)"},
 		// calls of single-return functions of the package are printed as the expression they return
-		{"Method.Call", `fmt.Sprintf("%s(%s)", RECV.Name, RECV.ArgCallList<(template.Method).ArgCallList>())`},
-		{"Method.Signature", `fmt.Sprintf("(%s) (%s)", RECV.ArgList<(template.Method).ArgList>(), RECV.ReturnArgList<(template.Method).ReturnArgList>())`},
+		{"Method.Call", `RECV.Name + "(" + RECV.ArgCallList<(template.Method).ArgCallList>() + ")"`},
+		{"Method.Signature", `"(" + RECV.ArgList<(template.Method).ArgList>() + ") (" + RECV.ReturnArgList<(template.Method).ReturnArgList>() + ")"`},
 		{"Method.Declaration", "RECV.Name + RECV.Signature<(template.Method).Signature>()"},
 		{"Method.IsVariadic", "builtin.len(RECV.Params) > 0 && RECV.Params[builtin.len(RECV.Params) - 1].Variadic"},
 		{"Param.Name", "RECV.Var.Name"},
@@ -413,8 +413,8 @@ func ruleAccessors(c *Ctx, r *Repo, r1, r2, r3 string) {
 	const nmR = "RECV.Var.Name"
 	tables := map[string][]row{
 		"Param.MethodArg": {
-			{map[string]bool{"RECV.Variadic": true}, `fmt.Sprintf("%s ...%s", ` + nmR + `, ` + tsR + `[2:])`},
-			{map[string]bool{"RECV.Variadic": false}, `fmt.Sprintf("%s %s", ` + nmR + `, ` + tsR + `)`},
+			{map[string]bool{"RECV.Variadic": true}, nmR + ` + " ..." + ` + tsR + `[2:]`},
+			{map[string]bool{"RECV.Variadic": false}, nmR + ` + " " + ` + tsR},
 		},
 		"Param.CallName": {
 			{map[string]bool{"ARG0": true, "RECV.Variadic": true}, nmR + ` + "..."`},
